@@ -88,11 +88,16 @@ def font (req : Json) : R Reply := do
           let a ← asInt a
           let toks ← asList asTok prog
           let run := if toks.all Option.isSome then exec (toks.filterMap id) else none
-          dec := dec ++ [Json.arr #[Json.str n, (match run with | some r => listJ opJ r.1 | none => Json.null),
-            (match run, ver with
-              | some (_, some w), .v1 => ratJ ((dn.2 : Q) + w)       -- popallWidth: nominalWidthX + args[0]
-              | some (_, none), .v1 => ratJ (dn.1 : Q)               -- defaultWidthX
-              | _, _ => Json.null)]]
+          -- the advance a CFF 1 reader recovers from the charstring (popallWidth: nominalWidthX + args[0], else defaultWidthX)
+          let wdec : Option Q := match run, ver with
+            | some (_, some w), .v1 => some ((dn.2 : Q) + w)
+            | some (_, none), .v1 => some (dn.1 : Q)
+            | _, _ => none
+          dec := dec ++ [Json.arr #[Json.str n, (match run with | some r => listJ opJ r.1 | none => Json.null), optJ ratJ wdec]]
+          -- ... is an advance of the font too: it must be the rounded source width like hmtx's
+          match wdec, gs.get? n with
+          | some w, some g => if w != (otRound g.width : Q) && !skip.contains n then bad := bad ++ [n ++ ":charstring-width"]
+          | _, _ => pure ()
           match gs.get? n with
           | some g => if skip.contains n || !(holdsOutline skip.isEmpty tol gs g ops && holdsAdvance g a) then bad := bad ++ [n]
           | none => if n != ".notdef" then bad := bad ++ [n]
